@@ -14,6 +14,7 @@ A *scenario* is a JSON-able dict (it is the replay):
                'workers': [{'nr_wait': n, 'unload': b, 'hook': None|[...]}],
                'policy': {...}, 'decisions': [[wid, action], ...] (optional: scripted replay)}]}
 `run_scenario(sc)` executes it and returns a `Result` (trace, final store, locks, oracle findings)."""
+import collections
 import contextlib
 import copy
 import functools
@@ -102,6 +103,28 @@ class H:
         return jug.hash.hash_one(('jugv-H', self.fn, self.args, self.kwargs))
 
 
+# instances of container SUBCLASSES as plain argument values: jug's value() leaves them alone (it rebuilds exact list / tuple / dict only),
+# so the task function must receive the very same kind of object
+Pair = collections.namedtuple('Pair', ['x', 'y'])
+
+
+class MyList(list):
+    pass
+
+
+def sub_py(cls, vs):
+    v = vs_py(vs)
+    if cls == 'pair':
+        return Pair(*v)
+    if cls == 'mylist':
+        return MyList(v)
+    if cls == 'odict':
+        return collections.OrderedDict(v.items())
+    if cls == 'ddict':
+        return collections.defaultdict(None, v)
+    raise ValueError(cls)
+
+
 def _keyc(k):
     if type(k) == int:
         return (0, k)
@@ -115,6 +138,14 @@ def canon(o):
     t = type(o)
     if t is H:
         return ('h', o.fn, tuple(canon(x) for x in o.args), tuple((n, canon(v)) for n, v in o.kwargs))
+    if t is Pair:
+        return ('sub', 'Pair', canon(tuple(o)))
+    if t is MyList:
+        return ('sub', 'MyList', canon(list(o)))
+    if t is collections.OrderedDict:
+        return ('sub', 'OrderedDict', tuple((_keyc(k), canon(v)) for k, v in o.items()))
+    if t is collections.defaultdict:
+        return ('sub', 'defaultdict', canon(dict(o)))
     if t == bool or o is None or t in (float, str, bytes):
         return ('a', repr(o))
     if t == int:
@@ -141,6 +172,8 @@ def canon_show(c):
         return 'f%d(%s)' % (c[1], ', '.join(inner))
     if k == 'a':
         return c[1]
+    if k == 'sub':
+        return '%s(%s)' % (c[1], canon_show(c[2]) if c[2] and isinstance(c[2][0], str) else repr(c[2]))
     if k == 'i':
         return str(c[1])
     if k == 's':
@@ -176,6 +209,8 @@ def canon_coq(c, atoms):
                                     listlit(['(%s, %s)' % (pos(KWNAMES.index(n) + 1), canon_coq(v, atoms)) for n, v in c[3]]))
     if k == 'a':
         return '(VAtom %s)' % pos(atoms(c[1]))
+    if k == 'sub':
+        return '(VAtom %s)' % pos(atoms(repr(c)))          # an opaque object: identified by its class and content
     if k == 'i':
         return '(VInt %s)' % zlit(c[1])
     if k == 's':
@@ -292,6 +327,8 @@ class Built:
             return vs_py(a[1])
         if k == 'pyval':
             return a[1]
+        if k == 'sub':
+            return sub_py(a[1], a[2])
         if k == 'task':
             return self.tasks[a[1]]
         if k == 'list':
@@ -331,6 +368,8 @@ def arg_coq(a, atoms):
         return '(AVal %s)' % canon_coq(canon(vs_py(a[1])), atoms)
     if k == 'pyval':
         return '(AVal %s)' % canon_coq(canon(a[1]), atoms)
+    if k == 'sub':
+        return '(AVal %s)' % canon_coq(canon(sub_py(a[1], a[2])), atoms)
     if k == 'task':
         return '(ATask %s)' % pos(a[1] + 1)
     if k == 'list':
@@ -393,6 +432,8 @@ def ref_arg(a, val_of):
         return vs_py(a[1])
     if k == 'pyval':
         return a[1]
+    if k == 'sub':
+        return sub_py(a[1], a[2])
     if k == 'task':
         return val_of(a[1])
     if k == 'list':
@@ -617,6 +658,11 @@ class ProgGen:
         kind = self.kind_of_task(j)
         base = ['task', j]
         r = rng.random()
+        if not self.clean and rng.random() < 0.2:
+            # an index that is a tuple / list holding a task (table[row, 0]): the look-up itself fails on these values, but only
+            # after `row` has been resolved - it is a dependency all the same
+            others = [u for u in range(i) if u != j] or [j]
+            return ['getitem', base, [rng.choice(['tuple', 'list']), [['task', rng.choice(others)], ['val', ['i', 0]]]]]
         if r < 0.12:
             return ['fun', base, ['wrap']]
         if kind[0] in ('list', 'tuple'):
@@ -689,10 +735,23 @@ class ProgGen:
             sls.append([self.gen_bound(k), self.gen_bound(k), rng.choice([None, 1, 2, -1])])
         return ['mapslice', blocks, bs, ln, sls]
 
+    def gen_sub(self):
+        """a plain argument that is an instance of a container subclass (namedtuple, list subclass, OrderedDict, defaultdict)"""
+        rng = self.rng
+        cls = rng.choice(['pair', 'mylist', 'odict', 'ddict'])
+        if cls == 'pair':
+            return ['sub', cls, ['t', [_gen_plain(rng, 1), _gen_plain(rng, 0)]]]
+        if cls == 'mylist':
+            return ['sub', cls, ['l', [_gen_plain(rng, 0) for _ in range(rng.randint(0, 3))]]]
+        keys = rng.sample([0, 1, 'a', 'b'], rng.randint(1, 3))
+        if cls == 'ddict':
+            keys = sorted(keys, key=_keyc)
+        return ['sub', cls, ['d', [[k, _gen_plain(rng, 0)] for k in keys]]]
+
     def gen_arg(self, i, depth=2):
         rng = self.rng
         if i == 0:
-            return ['val', _gen_plain(rng, 1)]
+            return ['val', _gen_plain(rng, 1)] if rng.random() < 0.85 else self.gen_sub()
         if self.map_heavy and self.maps and rng.random() < 0.45:
             return self.gen_mapped(i)
         r = rng.random()
@@ -714,8 +773,10 @@ class ProgGen:
             return self.gen_tasklet(i, depth)
         if r < 0.86 and self.maps:
             return self.gen_mapped(i)
-        if r < 0.91:
+        if r < 0.89:
             return ['custom', self.gen_arg(i, depth - 1)]
+        if r < 0.93:
+            return self.gen_sub()
         if r < 0.95:
             return ['nohash', _gen_plain(rng, 1)]
         inner = self.gen_task(i) if rng.random() < 0.5 else self.gen_tasklet(i, depth - 1)
@@ -812,6 +873,20 @@ def deep_chain_program(n, order=('R', 'D', 'C', 'U')):
             tasks.append({'fn': 3, 'args': [['getitem', ['task', n - 1], ['val', ['i', 1]]]], 'kwargs': []})
         else:
             tasks.append({'fn': 4, 'args': [['val', ['i', 7]]], 'kwargs': []})
+    return {'fns': fns, 'tasks': tasks}
+
+
+def wide_program(ndep, nindep, fail=True, before=0):
+    """one root task, `ndep` trivial tasks that take (an element of) it, then `nindep` independent tasks (`before` of them defined in
+    front of the dependents).  With more than 128 dependents the scheduler's bounded look-ahead (max_cannot_run) is crossed."""
+    fns = {'0': ['raise'] if fail else ['list', 1], '1': ['app'], '2': ['app']}
+    tasks = [{'fn': 0, 'args': [['val', ['i', 0]]], 'kwargs': []}]
+    for i in range(before):
+        tasks.append({'fn': 2, 'args': [['val', ['i', 900 + i]]], 'kwargs': []})
+    for i in range(ndep):
+        tasks.append({'fn': 1, 'args': [['val', ['i', i]], ['task', 0] if fail else ['getitem', ['task', 0], ['val', ['i', 1]]]], 'kwargs': []})
+    for i in range(nindep - before):
+        tasks.append({'fn': 2, 'args': [['val', ['i', 950 + i]]], 'kwargs': []})
     return {'fns': fns, 'tasks': tasks}
 
 
